@@ -38,6 +38,9 @@ var c13Docs = []string{
 	"model\n  schema 1.1\ntype user # comment\n  # full line\ntype folder\n  relations\n    define parent: [\n      folder,\n      user\n    ]\n    define v: (v from parent)\n",
 	"type nothing\n",
 	"model\n  schema 1.1\ntype $\n",
+	// twin of document 1: every name of it (doc, a, b, c, p, k, x, l) with another meaning - state keyed by a name only
+	// (a memo of rendered conditions, of relation lookups, of parameter types) hands one document the other's content
+	"model\n  schema 1.1\ntype user\ntype doc\n  relations\n    define a: [user] or b\n    define b: [user]\n    define c: c from p or b\n    define p: [doc, user]\ncondition k(x: string, l: map<int>) {\n  x == \"a\"\n}\n",
 }
 
 func c13ModularModel() *openfgav1.AuthorizationModel {
@@ -57,6 +60,28 @@ func c13GraphModel() *openfgav1.AuthorizationModel {
 			{Name: "parent", Rw: ref.T(), Restr: []ref.Restriction{{Type: "doc"}}},
 		}},
 	}})
+}
+
+// c13GraphModelTwin has the names of c13GraphModel with other rewrites, restrictions and a condition.
+func c13GraphModelTwin() *openfgav1.AuthorizationModel {
+	return ref.ToProto(&ref.Model{Schema: "1.1", Types: []ref.TypeDef{
+		{Name: "user"}, {Name: "group", Rels: []ref.Relation{{Name: "member", Rw: ref.T(), Restr: []ref.Restriction{{Type: "user", Wildcard: true}}}}},
+		{Name: "doc", Rels: []ref.Relation{
+			{Name: "viewer", Rw: ref.I(ref.T(), ref.C("blocked")), Restr: []ref.Restriction{{Type: "user", Condition: "k"}, {Type: "group", Relation: "member"}}},
+			{Name: "editor", Rw: ref.U(ref.T(), ref.TT("editor", "parent")), Restr: []ref.Restriction{{Type: "group", Relation: "member"}}},
+			{Name: "blocked", Rw: ref.C("editor")},
+			{Name: "parent", Rw: ref.T(), Restr: []ref.Restriction{{Type: "doc"}, {Type: "doc", Condition: "k"}}},
+		}},
+	}, Conds: []ref.Condition{{Name: "k", Params: []ref.Param{{Name: "x", Type: "timestamp"}}, Expr: "x == x"}}})
+}
+
+var c13TwinMemo *openfgav1.AuthorizationModel
+
+func c13Twin() *openfgav1.AuthorizationModel {
+	if c13TwinMemo == nil {
+		c13TwinMemo = c13GraphModelTwin()
+	}
+	return c13TwinMemo
 }
 
 var c13FailingMemo = map[*openfgav1.AuthorizationModel]*openfgav1.AuthorizationModel{}
@@ -121,6 +146,7 @@ var c13BuilderModelB = ref.ToProto(&ref.Model{Schema: "1.1", Types: []ref.TypeDe
 // c13Ops builds the call alphabet over the given shared inputs.
 func c13Ops(shared, graphM *openfgav1.AuthorizationModel) []c13Op {
 	c13Failing(shared) // built before any thread runs
+	c13Twin()
 	parse := func(i int) c13Op {
 		return c13Op{fmt.Sprintf("parse-doc%d", i), func() string {
 			m, err := transformer.TransformDSLToProto(c13Docs[i])
@@ -131,7 +157,7 @@ func c13Ops(shared, graphM *openfgav1.AuthorizationModel) []c13Op {
 			return c13Keep(render(), render)
 		}}
 	}
-	ops := []c13Op{parse(0), parse(1), parse(3), parse(5),
+	ops := []c13Op{parse(0), parse(1), parse(3), parse(5), parse(8),
 		{"modular-parse-doc2", func() string {
 			m, ext, err := transformer.TransformModularDSLToProto(c13Docs[2])
 			if err != nil {
@@ -196,6 +222,19 @@ func c13Ops(shared, graphM *openfgav1.AuthorizationModel) []c13Op {
 			o := wgBuildOn(c13SharedBuilder, c13BuilderModelB)
 			render := func() string { return wgObsString(o) }
 			return c13Keep(render(), render)
+		}},
+		{"print-twin-of-shared-graph-model", func() string { s, err := transformer.TransformJSONProtoToDSL(c13Twin()); return s + errStr(err) }},
+		{"weighted-graph-twin-of-shared", func() string {
+			o := wgBuild(c13Twin())
+			render := func() string { return wgObsString(o) }
+			return c13Keep(render(), render)
+		}},
+		{"plain-graph-twin-of-shared", func() string {
+			g, err := graph.NewAuthorizationModelGraph(c13Twin())
+			if err != nil {
+				return errStr(err)
+			}
+			return g.GetDOT()
 		}},
 		{"validators+utils", func() string {
 			var sb strings.Builder
@@ -385,7 +424,7 @@ func c13History(ctx *core.Ctx) {
 			return c13Keep(render(), render)
 		}})
 	}
-	for _, o := range c13Ops(shared, graphM)[6:] {
+	for _, o := range c13Ops(shared, graphM)[7:] {
 		if o.Name == "print-failing-variant-of-shared-modular" {
 			continue // the history alphabet has its own failing calls below
 		}
@@ -549,6 +588,8 @@ func schedClass(site string) string {
 	return "other"
 }
 
+var c13TwinPairs = map[string]string{"parse-doc1": "parse-doc8", "print-shared-graph-model": "print-twin-of-shared-graph-model", "plain-graph-shared": "plain-graph-twin-of-shared"}
+
 // c13Interleave explores all schedules of the given calls within the preemption bound.
 func c13Interleave(ctx *core.Ctx, names []string, bound int, replay []int, share int) bool {
 	shared, graphM := c13ModularModel(), c13GraphModel()
@@ -668,6 +709,9 @@ func c13Interleavings(ctx *core.Ctx) {
 			// quick: every call with itself and with three hub calls (a parse, the shared-model printer, a graph builder), and the
 			// two calls on the shared builder value with one another; thorough: every pair
 			bothOnBuilder := strings.Contains(names[i], "on-shared-builder") && strings.Contains(names[j], "on-shared-builder")
+			if twin, ok := c13TwinPairs[names[i]]; ok && twin == names[j] {
+				bothOnBuilder = true // a call with its twin (same names, other content)
+			}
 			if !ctx.Thorough() && i != j && !hubs[names[i]] && !hubs[names[j]] && !bothOnBuilder {
 				continue
 			}
